@@ -19,7 +19,8 @@
                          are returned as members;
      dyn_cands = false : post_create / post_modify partition the changed entries and test only the
                          NON-dyngroup ones against the cached filters.
-   `cur` is the pinned tree; `fixedv` is the tree with /verif/fixes/C18.patch applied. *)
+   `cur` is the tree BEFORE the commit "fix: dynamic groups ..."; `fixedv` is the tree since that
+   commit (both facts repaired: live_only = dyn_cands = true). *)
 From Coq Require Import List NArith Bool.
 Import ListNotations.
 Require Import KV.Base.Filter.
@@ -60,9 +61,12 @@ Record st := mkS {
 Record variant := mkV { live_only : bool; dyn_cands : bool }.
 Definition cur : variant := mkV false false.
 Definition fixedv : variant := mkV true true.
-(* the variant the correspondence run compares /repo against. Flip to `fixedv` when
-   /verif/fixes/C18.patch is committed to /repo (then `known` is constantly false). *)
-Definition tree : variant := cur.
+(* only the first fact repaired (re-evaluation sees live entries only) *)
+Definition recfixed : variant := mkV true false.
+(* the variant the correspondence run compares /repo against: the tree since the commit
+   "fix: dynamic groups ..." (= /verif/fixes/C18.patch). `cur` and `recfixed` are kept to document
+   the defects of the tree before that commit (C18_prefix_refuted). *)
+Definition tree : variant := fixedv.
 
 (* what `qs.internal_search(scope_i)` ranges over *)
 Definition stored (v : variant) (es ds : list (N * tv)) : list (N * tv) :=
@@ -281,6 +285,6 @@ Definition obs_exact (o : obs) : bool := forallb (exact_grp (o_ents o)) (o_grps 
 Definition pcheck (c : case) : bool :=
   match c with CHist init steps => obs_exact init && forallb (fun p => obs_exact (snd p)) steps end.
 
-(* the history contains a step of a known-finding class *)
-Definition known (c : case) : bool :=
-  match c with CHist init steps => run_known tree (st_of init) (map fst steps) end.
+(* no known-finding class since the fix commit (`run_known tree` is constantly false:
+   KV.C18.Proofs.fixed_never_known) *)
+Definition known (_ : case) : bool := false.
